@@ -1690,8 +1690,14 @@ pub fn run_c11_with(case: &Case, streams_complete: bool) -> Outcome {
     if let Some(c) = a.conn_end_at {
         viol!(a, "c11-connection-ended", "the connection ended at event {c} although only datagrams and well-formed stream traffic were exchanged: {}", fmt_ev(&run.events[c].ev));
     }
-    if let Err((sig, msg)) = a.integrity().and_then(|_| a.credit().map(|_| ())).and_then(|_| a.end_of_stream()) {
-        viol!(a, format!("c11-streams:{sig}"), "{msg}");
+    // (the stream oracles apply to workloads whose streams are C11's own; the open/close cycles borrowed from C06 reuse flow ids under
+    // that property's preconditions - how an endpoint turns random draws into ids is unspecified, and C06 itself sorts out the
+    // executions in which an id comes back while a handle of its previous stream is still held -, so there only the datagram clauses
+    // and "the connection stays up" are judged)
+    if streams_complete {
+        if let Err((sig, msg)) = a.integrity().and_then(|_| a.credit().map(|_| ())).and_then(|_| a.end_of_stream()) {
+            viol!(a, format!("c11-streams:{sig}"), "{msg}");
+        }
     }
     let stuck = a.unfinished(perpetual);
     if !stuck.is_empty() && streams_complete {
